@@ -236,6 +236,32 @@ static void opname(int op, char* buf, size_t cap) {
 
 static int do_probe = 1, alias = 0;
 static volatile unsigned char* probe_done;
+static int in_probe_child;
+
+#ifndef VF_ASAN
+/*
+** Without a sanitizer a memmove whose size has wrapped around below zero does not always
+** fault: glibc may copy *backwards* from the wrapped end and silently trash the heap in
+** front of the buffer, in the probe child and afterwards in the explorer alike.  The
+** library's calls to memmove are therefore routed through this definition (it takes
+** precedence over libc's for the statically linked libCello.a), which turns a size above
+** 2^30 into a definite outcome.  (The ASan build has its own interceptor for this.)
+*/
+void* memmove(void* dst, const void* src, size_t n) {
+  if (n > ((size_t)1 << 30)) {
+    if (in_probe_child && probe_done) { probe_done[2] = 1; _exit(0); }
+    /* outside a probe (replay): same label, and the run ends here as it would for a crash */
+    vf.aborted = 1;
+    vf_violation(LB("memmove-size-wrapped"), NULL, "memmove called with size %zu (wrapped around below zero) on \"%s\"", n, mdl);
+    vf_write();
+    _exit(0);
+  }
+  unsigned char* d = dst; const unsigned char* s_ = src;
+  if (d < s_) { for (size_t i = 0; i < n; i++) d[i] = s_[i]; }
+  else if (d > s_) { for (size_t i = n; i-- > 0;) d[i] = s_[i]; }
+  return dst;
+}
+#endif
 static int probe_kind; static const char* probe_arg;
 static uint64_t nprobes;
 
@@ -245,6 +271,7 @@ static void probe_child(void* unused) {
      printed and symbolised (15 ms each): vf.h's report hook ends the process with status 2
      when the result file cannot be opened.  A replay runs without probes and shows the report. */
   vf.out = "/nonexistent-dir/probe-child";
+  in_probe_child = 1;
   { int fd = open("/dev/null", O_WRONLY); if (fd >= 0) { dup2(fd, 2); close(fd); } }
   var e = NULL;
   if (probe_kind == -1) e = VF_CATCH(rem(S, $S((char*)probe_arg)));
@@ -253,21 +280,41 @@ static void probe_child(void* unused) {
   else if (probe_kind == M_REM_SELF) e = VF_CATCH(rem(S, S));
   else if (probe_kind == M_REM_EQUAL_VALUE) { var t = new_raw(String, $S(mdl)); e = VF_CATCH(rem(S, t)); del_raw(t); }
   (void)e;
-  /* touch the result so that a corrupted buffer is noticed here and not in the explorer */
+  /* hand the result to the explorer: a wrong result may come with a trashed heap (memmove with a
+     wrapped-around size does not always fault), so the explorer must not repeat such an operation */
   char* v = sval();
-  if (v) { size_t us = malloc_usable_size(v); volatile size_t n = strnlen(v, us); (void)n; }
-  *probe_done = 1;
+  if (!v) probe_done[1] = 1;
+  else {
+    size_t us = malloc_usable_size(v); size_t n = strnlen(v, us);
+    if (n == us) probe_done[1] = 2;
+    if (n > 200) n = 200;
+    memcpy((char*)probe_done + 8, v, n); probe_done[8 + n] = 0;
+  }
+  probe_done[0] = 1;
+}
+
+/* after a successful probe: does the child's result equal the expected string? records a violation if not */
+static int probe_result_wrong(const char* expect, const char* what) {
+  if (!do_probe) return 0;
+  if (probe_done[1] == 1) { vf_violation(LB("null-buffer"), NULL, "%s on \"%s\" left the String with a NULL buffer (observed in a child process sharing this state)", what, mdl); return 1; }
+  if (probe_done[1] == 2) { vf_violation(LB("not-terminated-in-allocation"), NULL, "%s on \"%s\" left no NUL inside the allocation (observed in a child process sharing this state)", what, mdl); return 1; }
+  if (strcmp((char*)probe_done + 8, expect) != 0) {
+    vf_violation(LB("wrong-result"), NULL, "%s on \"%s\" left \"%s\"; expected \"%s\" (observed in a child process sharing this state)", what, mdl, (char*)probe_done + 8, expect);
+    return 1;
+  }
+  return 0;
 }
 
 static const char* probe(void (*fn)(void*)) {
   if (!do_probe) return NULL;
   if (!probe_done) probe_done = mmap(NULL, 4096, PROT_READ | PROT_WRITE, MAP_SHARED | MAP_ANONYMOUS, -1, 0);
-  *probe_done = 0;
+  memset((void*)probe_done, 0, 256);
   nprobes++;
   struct vf_child c = vf_fork_run(fn, NULL, 20);
   static char sym[64];
   if (c.timed_out) return "crash/hang";
   if (c.signaled) { snprintf(sym, sizeof sym, "crash/%s", c.sig == SIGSEGV ? "SIGSEGV" : c.sig == SIGABRT ? "SIGABRT" : c.sig == SIGBUS ? "SIGBUS" : "signal"); return sym; }
+  if (probe_done[2]) return "memmove-size-wrapped";   /* memmove asked to move more than 2^30 bytes */
   if (!*probe_done) return "sanitizer/report";      /* left without finishing: the ASan/UBSan hook fired */
   return NULL;
 }
@@ -334,6 +381,7 @@ static int apply(int op) {
     snprintf(kind, sizeof kind, "rem-%s", w);
     setkind(kind);
     char* p = strstr(mdl, u);
+    if (propC12 && p != NULL) return VF_SKIP;   /* removing a present substring is a valid operation: judged by C16, not repeated here */
     {
       probe_kind = -1; probe_arg = u;
       const char* sym = probe(probe_child);
@@ -341,6 +389,12 @@ static int apply(int op) {
         vf_violation(LB(sym), NULL, "rem(\"%s\", \"%s\") (%s substring): %s in a child process sharing this state", mdl, u, w, sym);
         return VF_BAD;
       }
+    }
+    {
+      char exp0[REFCAP]; strcpy(exp0, mdl);
+      if (p) { size_t off0 = (size_t)(p - mdl); strcpy(exp0 + off0, p + strlen(u)); }
+      char what[64]; snprintf(what, sizeof what, "rem(s, \"%s\") (%s substring)", u, w);
+      if (probe_result_wrong(exp0, what)) { strcpy(mdl, exp0); return VF_BAD; }
     }
     if (p == NULL) {
       /* absent: the string must be left unchanged; an exception is optional (ValueError|KeyError) */
@@ -425,11 +479,13 @@ static int apply(int op) {
   case M_ASSIGN_EQUAL_VALUE: case M_CONCAT_EQUAL_VALUE: case M_REM_EQUAL_VALUE:
     /* a distinct heap String equal in value to the target */
     if (m == M_CONCAT_EQUAL_VALUE && 2 * rl > (size_t)L) return VF_SKIP;
+    if (m == M_REM_EQUAL_VALUE && propC12) return VF_SKIP;
     setkind(m == M_ASSIGN_EQUAL_VALUE ? "assign-equal-value" : m == M_CONCAT_EQUAL_VALUE ? "concat-equal-value" : "rem-equal-value");
     if (m == M_REM_EQUAL_VALUE) {
       probe_kind = m; probe_arg = NULL;
       const char* sym = probe(probe_child);
       if (sym) { vf_violation(LB(sym), NULL, "rem(s, heap string of equal value) on \"%s\": %s in a child process sharing this state", mdl, sym); return VF_BAD; }
+      if (probe_result_wrong("", "rem(s, heap string of equal value)")) { mdl[0] = 0; return VF_BAD; }
     }
     R[1] = new_raw(String, $S(mdl));
     if (m == M_ASSIGN_EQUAL_VALUE) e = VF_CATCH(assign(S, R[1]));
@@ -440,6 +496,13 @@ static int apply(int op) {
       del_raw(R[1]); R[1] = NULL;
       if (e) { vf_violation(LB("raises"), NULL, "%s raised %s on \"%s\"", lastkind, vf_exc_name(e), mdl); return VF_BAD; }
       if (argbad) { vf_violation(LB("argument-modified"), NULL, "%s modified its argument", lastkind); return VF_BAD; }
+    }
+    if (m == M_REM_EQUAL_VALUE) {
+      char* v = sval(); size_t us = malloc_usable_size(v);
+      if (memchr(v, 0, us) && v[0] != 0) {
+        vf_violation(LB("wrong-result"), NULL, "rem(s, heap string of equal value) on \"%s\" left \"%s\"; expected \"\"", mdl, v);
+        mdl[0] = 0; return VF_BAD;
+      }
     }
     if (m == M_CONCAT_EQUAL_VALUE) { char t[REFCAP]; strcpy(t, mdl); strcat(mdl, t); }
     if (m == M_REM_EQUAL_VALUE) mdl[0] = 0;
@@ -452,10 +515,23 @@ static int apply(int op) {
     probe_kind = m; probe_arg = NULL;
     const char* sym = probe(probe_child);
     if (sym) { vf_violation(LB(sym), NULL, "%s on \"%s\": %s", miscname[m], mdl, sym); return VF_BAD; }
+    {
+      char exp0[REFCAP]; strcpy(exp0, mdl);
+      if (m == M_CONCAT_SELF) strcat(exp0, mdl);
+      if (m == M_REM_SELF) exp0[0] = 0;
+      if (probe_result_wrong(exp0, miscname[m])) return VF_BAD;
+    }
     if (m == M_ASSIGN_SELF) e = VF_CATCH(assign(S, S));
     else if (m == M_CONCAT_SELF) e = VF_CATCH(concat(S, S));
     else e = VF_CATCH(rem(S, S));
     if (e) { vf_violation(LB("raises"), NULL, "%s raised %s on \"%s\"", lastkind, vf_exc_name(e), mdl); return VF_BAD; }
+    if (m == M_REM_SELF) {
+      char* v = sval(); size_t us = malloc_usable_size(v);
+      if (memchr(v, 0, us) && v[0] != 0) {
+        vf_violation(LB("wrong-result"), NULL, "rem(s,s) on \"%s\" left \"%s\"; expected \"\"", mdl, v);
+        mdl[0] = 0; return VF_BAD;
+      }
+    }
     if (m == M_CONCAT_SELF) { char t[REFCAP]; strcpy(t, mdl); strcat(mdl, t); }
     if (m == M_REM_SELF) mdl[0] = 0;
     return VF_OK; }
